@@ -509,6 +509,10 @@ def run(ctx):
         check_close_once(ctx, name, pat, kind)
     for f in ('open', 'clone_snapshot', 'close_raw', 'publish', 'pullup', 'gc'):
         check_tracker_step(ctx, f)
+    # a view is frozen only if what it sees is a complete prefix of the commit order: a batch must become visible in one step
+    # (single seqno, publish after the last apply, all under the journal lock) - the obligation of C06, part of this property as well
+    from . import c06
+    c06.check_atomic_publish(ctx, 2)
     for o in ctx.obligations:
         ctx.samples.append(o.as_dict())
     return ctx.finish()
